@@ -14,7 +14,7 @@ static Out attempt(Obj& o, const std::string& bytes, int tr, const Desc* orig) {
     fflush(stdout);
     pid_t pid = fork();
     if (pid == 0) {
-        close(fd[0]); int dn = open("/dev/null", O_WRONLY); dup2(dn, 2); dup2(dn, 1);
+        signal(SIGABRT, SIG_DFL); close(fd[0]); int dn = open("/dev/null", O_WRONLY); dup2(dn, 2); dup2(dn, 1);
         alarm(20);
         char res[3] = {'?', '0', 0};
         if (tr == 0) { std::istringstream is(bytes); void* r = o.impS(is); res[0] = ((bool)is) ? 'C' : 'F'; if (orig && r) { Desc d = o.desc(r); res[1] = same_desc(d, *orig) ? '1' : '0'; } }
